@@ -117,3 +117,18 @@ def branches(t: Any, conds: tuple = ()):
         yield from branches(t[3], conds + (sym.mk_not(t[1]),))
     else:
         yield conds, t
+
+
+def simplify_under(t: Any, conds: tuple) -> Any:
+    """Resolve the conditionals of ``t`` whose condition (or its negation) is among ``conds``."""
+    cs = set(conds)
+
+    def fn(x):
+        if x and x[0] == "ifexp":
+            if x[1] in cs:
+                return simplify_under(x[2], conds)
+            if sym.mk_not(x[1]) in cs:
+                return simplify_under(x[3], conds)
+        return None
+
+    return sym.subst(t, fn)
